@@ -52,6 +52,10 @@ class TaskHandler:
         if not self._open:
             raise IllegalStateException
 
+    def __open_pool(self) -> ThreadPoolExecutor:
+        self.__check_open()
+        return self._pool
+
     def submit_task(self, task, *args) -> Future:
         """
         Submit a task to be processed in the task thread.
@@ -66,8 +70,19 @@ class TaskHandler:
             self.__check_open()
             next_id = self._next_id()
             # there is an at exit in threading that prevents submitting tasks after shutdown, but no api to check this
-            future = self._pool.submit(task, *args)
-            self._pending[next_id] = future
+            # (one statement: found open, handed to the pool and known to flush() at once)
+            self._pending[next_id] = future = self.__open_pool().submit(task, *args)
+            if not self._open:
+                # the lock is re-entrant: a flush() of this very thread (a signal handler that shuts the agent down) has
+                # closed the handler since we looked. The flush has returned, it cannot wait for this task any more: the
+                # task is taken back and refused - or, if a worker has it already, waited for here
+                if future.cancel():
+                    del self._pending[next_id]
+                    raise IllegalStateException
+                try:
+                    future.exception(10)
+                except Exception:
+                    pass
 
         # cannot use 'del' in lambda: https://stackoverflow.com/a/41953232/5151254
         def callback(_future: Future):
